@@ -322,7 +322,7 @@ def normalise(x):
         return ("not", normalise(x[1]))
     if k == "lit":
         v = x[1]
-        if isinstance(v, float) and not isinstance(v, bool) and v == int(v) and abs(v) < 2**53:
+        if isinstance(v, float) and not isinstance(v, bool) and v == v and abs(v) < 2**53 and v == int(v):
             v = int(v)
         if isinstance(v, int) and not isinstance(v, bool) and v == 0:
             v = 0
